@@ -192,11 +192,17 @@ def _value_to_cst(value: Any) -> cst.BaseExpression:  # noqa: C901
             )
         return cst.Tuple(elements=[cst.Element(value=_value_to_cst(v)) for v in value])
     if tu.is_set(typ):
-        elems = list(value)
-        if not elems:
+        if not value:
             # empty set: set()
             return cst.Call(func=cst.Name("set"))
-        return cst.Set(elements=[cst.Element(value=_value_to_cst(v)) for v in elems])
+        # A set has no defined iteration order (for str elements it changes with
+        # PYTHONHASHSEED), so emit the elements ordered by their rendered source text:
+        # the same value then always yields the same assertion.
+        rendered = sorted(
+            (_value_to_cst(v) for v in value),
+            key=cst.Module(body=[]).code_for_node,
+        )
+        return cst.Set(elements=[cst.Element(value=node) for node in rendered])
     if tu.is_dict(typ):
         return cst.Dict(
             elements=[
